@@ -205,7 +205,11 @@ def stage(pid, tier, work):
 
 def rerun_one(name, work, tag=""):
     d = os.path.join(work, "repotest-rerun" + tag)
-    recs = build_and_record(d, only=[name])
+    if name.startswith("example_"):
+        # the example programs are recorded by their own builder (stdin driven); keep only the one asked for
+        recs = [r for r in build_and_record_examples(d) if r["name"] == name]
+    else:
+        recs = build_and_record(d, only=[name])
     res = validate(recs, d, nbatch=1)
     return res[0] if res else None
 
